@@ -794,8 +794,27 @@ SOCK_SEAM_SHORT(recv, "recv", )
 SOCK_SEAM_SHORT(send, "send", const)
 SOCK_SEAM(ssize_t, recvfrom, "recvfrom", (int fd, void *buf, size_t n, int flags, struct sockaddr *sa, socklen_t *sl), (fd, buf, n, flags, sa, sl))
 SOCK_SEAM(ssize_t, recvmsg, "recvmsg", (int fd, struct msghdr *m, int flags), (fd, m, flags))
-SOCK_SEAM(ssize_t, pread, "pread", (int fd, void *buf, size_t n, off_t off), (fd, buf, n, off))
-SOCK_SEAM(ssize_t, pwrite, "pwrite", (int fd, const void *buf, size_t n, off_t off), (fd, buf, n, off))
+/* pread/pwrite take the SHORT-TRANSFER fault too (legal for files: a signal, a quota or a full disk part-way) */
+#define FILE_SEAM_SHORT(name, site, constq)                                     \
+ssize_t sim_##name(int fd, constq void *buf, size_t n, off_t off) {             \
+	ssize_t r; int err, e;                                                     \
+	sim_yield(site);                                                           \
+	e = sim_fault(site);                                                       \
+	if (e) { sim_probe("fault." site); sim_hash_u64(0x50c0 + (uint64_t)e); errno = e; return -1; } \
+	e = sim_fault(site ".short");                                              \
+	if (e > 0 && n > 1) { n = 1 + (size_t)(e - 1) % (n - 1); sim_probe("fault." site ".short"); sim_hash_u64(0x50c1 + (uint64_t)n); } \
+	r = name(fd, buf, n, off);                                                 \
+	err = errno;                                                               \
+	S.fd_gen++;                                                                \
+	sim_hash_u64(0x50c00000000ull ^ (uint64_t)(int64_t)r ^ ((uint64_t)((int64_t)r < 0 ? err : 0) << 24)); \
+	sim_log(site "(fd#%d, %zu @%lld) = %lld%s%s", sim_fd(fd) ? sim_fd(fd)->ord : -1, n, (long long)off, (long long)r, (int64_t)r < 0 ? " " : "", (int64_t)r < 0 ? strerror(err) : ""); \
+	errno = err;                                                               \
+	sim_yield(site ".done");                                                   \
+	errno = err;                                                               \
+	return r;                                                                  \
+}
+FILE_SEAM_SHORT(pread, "pread", )
+FILE_SEAM_SHORT(pwrite, "pwrite", const)
 int sim_connect(int fd, const struct sockaddr *sa, socklen_t sl) {
 	int r, err, e;
 	sim_yield("connect");
